@@ -55,6 +55,8 @@ def _worker(args):
     prop, campaign, tier, seed, shard, nshards = args
     t0 = time.time()
     try:
+        from pbt.harness import limit_memory
+        limit_memory()
         mod = importlib.import_module("pbt.props." + prop.lower())
         known = load_known_findings().get(prop, {})
         ctx = Ctx(prop, tier, seed, shard, nshards, campaign, known)
